@@ -41,6 +41,7 @@ Fixpoint wf_ty (t : ty) : bool :=
   | TStruct ms => distinct (map fst ms) && forallb (fun m => key_ok (fst m) (fst (snd m)) && wf_ty (snd (snd m))) ms
   | TVariant ts => forallb wf_ty ts
   | TOptional t | TNotUndef t | TType t | TSensitive t => wf_ty t
+  | TOther _ => false          (* types outside the model (Iterable, Callable, aliases, Object, ...) *)
   | _ => true
   end.
 
